@@ -48,7 +48,7 @@ class QResult:
         self.wall = 0.0; self.solver_s = None; self.error = None; self.functions = []
         self.failed = []; self.witness_ok = None; self.unwind_failed = []; self.rss_mb = None
         self.witness_reached = []; self.witness_missed = []
-        self.nprops = 0; self.nsuccess = 0
+        self.nprops = 0; self.nsuccess = 0; self.undecided = []
 
 
 def run(cmd, **kw):
@@ -269,8 +269,11 @@ def run_query(q, workdir):
             else:
                 res.failed.append(p)
         else:
-            res.status = "inconclusive"; res.error = "property %s status %s" % (p.get("property"), st)
-            return res
+            res.undecided.append(p)
+    if res.undecided and not res.failed:
+        # CBMC leaves properties UNKNOWN only alongside failures; without a failure this is no verdict
+        res.status = "inconclusive"; res.error = "%d properties undecided (%s ...)" % (len(res.undecided), res.undecided[0].get("property"))
+        return res
     res.status = "done"
     return res
 
